@@ -28,3 +28,64 @@ impl PartialEq for Constant {
 
 /// `s` occurs in `e`
 pub open spec fn occurs(e: Expression, s: Scalar) -> bool { expr_scalars(e).contains(s) }
+
+// ---------------------------------------------------------------------------------------------
+// the scalars an intrinsic declares to write
+
+/// the scalars of a list of expressions, in order, with repetitions
+pub open spec fn exprs_scalars(es: Seq<Expression>) -> Seq<Scalar>
+    decreases es.len(),
+{
+    if es.len() == 0 { Seq::<Scalar>::empty() } else { exprs_scalars(es.drop_last()) + expr_scalars(es.last()) }
+}
+
+/// the scalars the intrinsic declares to write: None = "undeclared, assume it writes anything"
+pub open spec fn written_scalars(i: Intrinsic) -> Option<Seq<Scalar>> {
+    match i.written_expressions {
+        None => None,
+        Some(v) => Some(exprs_scalars(v@)),
+    }
+}
+
+/// the references of `v` point to the scalars `ss`
+pub open spec fn refs_are(v: Seq<&Scalar>, ss: Seq<Scalar>) -> bool {
+    v.len() == ss.len() && forall|i: int| 0 <= i < v.len() ==> *(#[trigger] v[i]) == ss[i]
+}
+
+pub proof fn lemma_exprs_scalars_step(es: Seq<Expression>, n: int)
+    requires 0 <= n < es.len(),
+    ensures exprs_scalars(es.take(n + 1)) == exprs_scalars(es.take(n)) + expr_scalars(es[n]),
+{
+    assert(es.take(n + 1).drop_last() =~= es.take(n));
+    assert(es.take(n + 1).last() == es[n]);
+}
+
+impl Intrinsic {
+//@ source lib/il/intrinsic.rs
+//@ fn impl Intrinsic :: fn written_expressions
+//@ rewrite 1 `self.written_expressions.as_deref()` => `opt_slice::opt_vec_as_slice(&self.written_expressions)` ## R-as-deref: the same conversion through a stand-in carrying the assumed contract of Option<Vec<T>>::as_deref (prelude/opt_slice.rs)
+//@ spec
+    ensures
+        /*@none*/ self.written_expressions is None ==> r is None,
+        /*@some*/ self.written_expressions matches Some(v) ==> (r matches Some(s) && s@ == v@),
+//@ end
+
+//@ fn impl Intrinsic :: fn scalars_written
+//@ rewrite 1 `written_expressions .iter() .flat_map(|expression| expression.scalars()) .collect::<Vec<&Scalar>>()` => `{ let mut vf_out: Vec<&Scalar> = Vec::new(); for expression in vf_it: written_expressions.iter() { let mut vf_part = expression.scalars(); vf_out.append(&mut vf_part); } vf_out }` ## R-flat-map-collect: `ITER.flat_map(|x| F).collect::<Vec<_>>()` is by definition the vector that receives, for every item x of ITER in order, all items of F in order; `expression.scalars()` is the original F
+//@ closure 0 |written_expressions: &[Expression]| -> (o: Vec<&Scalar>)
+    ensures refs_are(o@, exprs_scalars(written_expressions@)),
+//@ spec
+    ensures
+        /*@undeclared*/ written_scalars(*self) is None ==> r is None,
+        /*@declared*/ written_scalars(*self) matches Some(ss) ==> (r matches Some(v) && refs_are(v@, ss)),
+//@ loop 0
+    invariant
+        vf_it.seq().len() == written_expressions@.len(),
+        forall|j: int| 0 <= j < vf_it.seq().len() ==> *(#[trigger] vf_it.seq()[j]) == written_expressions@[j],
+        refs_are(vf_out@, exprs_scalars(written_expressions@.take(vf_it.index@ as int))),
+//@ before 0 `let mut vf_part`
+    proof { lemma_exprs_scalars_step(written_expressions@, vf_it.index@ as int); }
+//@ before 0 `vf_out }`
+    proof { assert(written_expressions@.take(written_expressions@.len() as int) =~= written_expressions@); }
+//@ end
+}
